@@ -52,6 +52,13 @@ def replay_kx(pid, path, oracles, opts_extra=None):
     """Re-execute exactly one recorded case, twice, and insist on identical observations."""
     import os
 
+    with open(path) as f:
+        rec0 = json.load(f)
+    if "program" not in rec0.get("case", {}):
+        print("recorded case (re-run the check to re-evaluate it):", json.dumps(rec0.get("case"))[:1500])
+        print(rec0.get("what"))
+        return 1 if rec0.get("what") else 0
+
     from tensora.problem import Problem
 
     from ..tensors import Structure, parse_fmt
